@@ -389,20 +389,45 @@ pub fn random(
     st
 }
 
-/// Re-execute a history (one op text per line) and print what happens.
-pub fn replay(sut: &dyn Sut, parse: &dyn Fn(&str) -> Option<Op>, lines: &[String], out: &mut dyn Write) -> Vec<Finding> {
+/// Execute a scripted history (one op text per line), emitting the line protocol; with
+/// `verbose` also a human-readable transcript on stderr (replay).
+pub fn script(sut: &dyn Sut, parse: &dyn Fn(&str) -> Option<Op>, lines: &[String], out: &mut dyn Write, verbose: bool) -> Stats {
+    let mut st = Stats::default();
+    writeln!(out, "{}", sut.cfg_line()).unwrap();
     let mut cur = sut.initial();
-    let mut all = vec![];
+    let mut sid = 0usize;
+    writeln!(out, "S {} {}", sid, hex(&cur)).unwrap();
+    let mut hist: Vec<String> = vec![];
     for l in lines {
-        let Some(op) = parse(l) else { continue };
+        let Some(op) = parse(l) else {
+            if verbose {
+                eprintln!("(skipping unparsable line: {l})");
+            }
+            continue;
+        };
         let mut f = vec![];
-        let (o, post) = transition(sut, &cur, &op, 0, &mut f);
-        writeln!(out, "{} => {}   bytes {}", op.text(), o.result, hex(&post)).unwrap();
-        for fi in &f {
-            writeln!(out, "  FINDING {}: {}", fi.property, fi.what).unwrap();
+        let (o, post) = transition(sut, &cur, &op, st.transitions, &mut f);
+        st.transitions += 1;
+        hist.push(op.text());
+        sid += 1;
+        writeln!(out, "S {} {}", sid, hex(&post)).unwrap();
+        writeln!(out, "O {} {} => {} ; {} ; {}", sid - 1, op.text(), o.result, sid, o.trace).unwrap();
+        if verbose {
+            eprintln!("{} => {}   bytes {}", op.text(), o.result, hex(&post));
+            for fi in &f {
+                eprintln!("  FINDING {}: {}", fi.property, fi.what);
+            }
         }
-        all.extend(f);
+        for c in sut.classify(&cur, &op, &o, &post) {
+            st.bump(c);
+        }
+        for fi in f {
+            st.findings.push((fi, hist.clone()));
+        }
         cur = post;
     }
-    all
+    st.states = sid + 1;
+    st.histories = 1;
+    st.samples.push(format!("script: {}", hist.join(", ")));
+    st
 }
